@@ -537,4 +537,6 @@ func Run(o *corr.Out) {
 	replay(o, true, [][]string{{"g", "c"}, {"c"}}, nil, "chan:double-close")
 	replay(o, true, [][]string{{"c"}, {"c"}}, nil, "chan:double-close")
 	poolConnDoubleClose(o)
+	// (E) free-running rounds: interleavings below the granularity of the scheduling points (free.go)
+	freeRun(o)
 }
